@@ -1,13 +1,26 @@
 import json, re, sys
 log = open(sys.argv[1]).read().splitlines()
+PFX = sys.argv[2] if len(sys.argv) > 2 else "w5"
 res = {}
 for l in log:
-    m = re.match(r"(w5-C\d\d-\d)\s+(CAUGHT by (\S+)|missed)(.*)", l)
+    m = re.match(r"(%s-C\d\d-\d)\s+(CAUGHT by (\S+)|missed)(.*)" % PFX, l)
     if not m: continue
     seed = m.group(1)
     rules = re.findall(r"\[(C\d\d) rc=1 (\S+)", m.group(4))
     res[seed] = (m.group(3), rules)
 MISS = {
+ "w7-C02-1": "a stale leading dimension handed to dsyevr in the C `max_step` (the assignment `ld = MAX(1,mk)` removed): misc_solvers kernels have no reference footprint (F-15); the same blind spot as w5-C01-2",
+ "w7-C06-1": "`C + j*(n+1)` -> `C + j*n` in the beta scaling of `sp_dsyrk`: the diagonal offset of a packed triangle, a value-level index expression with no sibling to compare with",
+ "w7-C06-2": "`offsetA = Gs.size[0]*p` -> `cdim_pckd*p` in `kkt_qr`: both are row counts of matrices in scope; which one is the leading dimension of Gs is a fact about an allocation 40 lines earlier that the offset rule does not connect",
+ "w7-C06-3": "`hresy` -> `resy` in the dual infeasibility residual of conelp: both are residual norms in scope; the formula is documented in prose only and has a single site",
+ "w7-C11-1": "the predicate of `sum()` that decides between scaling a term and building a `_sum_minmax` (`len(c) == 1` -> `type(c) is _sum_minmax or len(c._flist) == 1`): differs only for a max of several scalar functions",
+ "w7-C11-3": "the dimension test of `_minmax.__init__` moved into the branch for functions, so constants of a wrong length are no longer refused: a refusal that still exists and still dominates one of the two kinds of argument",
+ "w7-C12-3": "`a*c` -> `c*a` in `_lin._mul` (matrix product order for a column times a 1xn coefficient): operand order of a non-commutative product",
+ "w7-C13-1": "`if c not in self._variables[v][key]` before the append in `addconstraint`: the lists become sets, so a constraint added twice is forgotten after one `delconstraint`; the abstract run of add/delconstraint adds every constraint once",
+ "w7-C15-2": "`creal != 0 || cimag != 0` -> `&&` in `matrix_nonzero`: one boolean operator in a value test",
+ "w7-C15-3": "`if (id > INT) break;` in the type scan of `Matrix_NewFromSequence`: a complex element after a float is no longer seen; an early exit from a scan loop whose purpose (maximum over all elements) is not modelled",
+ "w7-C17-3": "the type pre-test of `number_from_pyobject` removed for the DOUBLE case (any object with `__float__` is accepted as alpha): a refusal deleted in a helper, not in a wrapper",
+ "w7-C20-1": "the column loop of `spmatrix_get_J` rewritten as a single pass with `if` where `while` is needed (empty columns): loop-carried arithmetic",
  "w5-C01-2": "a stale leading dimension (`ld` keeps the workspace-query value) in the C `max_step`; misc_solvers kernels have no reference footprint (F-15)",
  "w5-C06-2": "`x[a:b] = sparse` writes only the stored nonzeros (stale entries stay): a value-level change inside one copy loop",
  "w5-C07-2": "two statements swapped in `compute_scaling` (copy before the triangle is zeroed): an order constraint between a copy and a loop that no typestate of ours tracks",
